@@ -261,6 +261,70 @@ def call(op, objs, args, entry="method"):
     raise ValueError(f"unknown op {op}")
 
 
+class Session:
+    """One program being executed: registers, buffered events."""
+
+    def __init__(self, rec, tid, regs, cfg=None, grp=None):
+        self.rec, self.tid, self.regs, self.cfg = rec, tid, regs, cfg or {}
+        self.buf = []
+        self.seq = 0
+        self.dead = False
+        try:
+            self._emit("init", {"x": 0}, [], sorted(regs), "method", "ok", "")
+        except OutOfRange:
+            self.dead = True
+
+    def _emit(self, op, args, ins, outs, entry, outcome, exc):
+        self.buf.append(
+            {"tid": self.tid, "seq": self.seq, "op": op, "args": args or {"x": 0}, "in": list(ins),
+             "out": list(outs), "entry": entry, "outcome": outcome, "exc": exc, "cfg": self.cfg,
+             "regs": {k: snapshot(v) for k, v in self.regs.items()}})
+        self.seq += 1
+
+    def do(self, st):
+        """Execute one step; returns 'ok', 'raise', 'skip' or 'dead'."""
+        if self.dead:
+            return "dead"
+        regs = self.regs
+        if any(r not in regs for r in st["in"]):
+            return "skip"  # an earlier call raised: its dependants are not run
+        args = dict(st.get("args", {}))
+        try:
+            if st["op"] == "rel":
+                # relational pseudo-event: nothing is executed, the spec compares registers
+                self._emit("rel", args, st["in"], [], "method", "ok", "")
+                return "ok"
+            objs = [regs[r] for r in st["in"]]
+            outcome, exc = "ok", ""
+            try:
+                with warnings.catch_warnings():
+                    warnings.simplefilter("ignore")
+                    res = call(st["op"], objs, args, st.get("entry", "method"))
+            except OutOfRange:
+                raise
+            except BaseException as e:  # the error path is an outcome, not a crash
+                if isinstance(e, (KeyboardInterrupt, SystemExit)):
+                    raise
+                outcome, exc, res = "raise", type(e).__name__, ()
+            if outcome == "ok":
+                for r, v in zip(st["out"], res):
+                    regs[r] = v
+            self._emit(st["op"], args, st["in"], st["out"] if outcome == "ok" else [],
+                       st.get("entry", "method"), outcome, exc)
+            return outcome
+        except OutOfRange:
+            self.dead = True
+            return "dead"
+
+    def close(self):
+        if self.dead:
+            self.rec.skipped_out_of_range += 1
+            return False
+        for ev in self.buf:
+            self.rec.emit(ev)
+        return True
+
+
 class Recorder:
     """Executes programs and writes events."""
 
@@ -275,14 +339,9 @@ class Recorder:
         self.events += 1
 
     def run(self, prog):
-        regs = {}
-        for name, desc in prog["inputs"].items():
-            regs[name] = descriptors.build(desc)
-        tid = prog["tid"]
-        cfg = prog.get("cfg", {})
-        buf = []
         import symmray.abelian_core as _ac
 
+        cfg = prog.get("cfg", {})
         saved = (_ac._fuseinfo_cache_maxsize, _ac._fuseinfo_cache_maxsectors)
         if "cache" in cfg:
             _ac._fuseinfo_cache_maxsize = int(cfg["cache"])
@@ -291,56 +350,10 @@ class Recorder:
         if cfg.get("cache_clear"):
             _ac._fuseinfos.clear()
         try:
-            return self._run(prog, regs, tid, cfg, buf)
+            regs = {name: descriptors.build(desc) for name, desc in prog["inputs"].items()}
+            ses = Session(self, prog["tid"], regs, cfg)
+            for st in prog["steps"]:
+                ses.do(st)
+            return ses.close()
         finally:
             _ac._fuseinfo_cache_maxsize, _ac._fuseinfo_cache_maxsectors = saved
-
-    def _run(self, prog, regs, tid, cfg, buf):
-        try:
-            buf.append(
-                {"tid": tid, "seq": 0, "op": "init", "args": {"x": 0}, "in": [],
-                 "out": sorted(regs), "entry": "method", "outcome": "ok", "exc": "",
-                 "cfg": cfg, "grp": prog.get("grp", {"x": 0}),
-                 "regs": {k: snapshot(v) for k, v in regs.items()}}
-            )
-            for seq, st in enumerate(prog["steps"], 1):
-                objs = [regs[r] for r in st["in"]]
-                outcome, exc = "ok", ""
-                if st["op"] == "rel":
-                    # relational pseudo-event: nothing is executed, the spec compares registers
-                    buf.append(
-                        {"tid": tid, "seq": seq, "op": "rel", "args": st["args"], "in": st["in"], "out": [],
-                         "entry": "method", "outcome": "ok", "exc": "", "cfg": cfg, "grp": {"x": 0},
-                         "regs": {k: snapshot(v) for k, v in regs.items()}})
-                    continue
-                try:
-                    with warnings.catch_warnings():
-                        warnings.simplefilter("ignore")
-                        res = call(st["op"], objs, st.get("args", {}), st.get("entry", "method"))
-                except OutOfRange:
-                    raise
-                except RecursionError as e:
-                    outcome, exc, res = "raise", type(e).__name__, ()
-                except Exception as e:  # the error path is an outcome, not a crash
-                    outcome, exc, res = "raise", type(e).__name__, ()
-                if outcome == "ok":
-                    for r, v in zip(st["out"], res):
-                        regs[r] = v
-                args = dict(st.get("args", {}))
-                if not args:
-                    args = {"x": 0}
-                buf.append(
-                    {"tid": tid, "seq": seq, "op": st["op"], "args": args,
-                     "in": st["in"], "out": st["out"] if outcome == "ok" else [],
-                     "entry": st.get("entry", "method"), "outcome": outcome, "exc": exc,
-                     "cfg": cfg, "grp": st.get("grp", {"x": 0}),
-                     "regs": {k: snapshot(v) for k, v in regs.items()}}
-                )
-                if outcome == "raise" and not st.get("continue_on_raise", True):
-                    break
-        except OutOfRange:
-            self.skipped_out_of_range += 1
-            return False
-        for ev in buf:
-            self.emit(ev)
-        return True
